@@ -308,9 +308,8 @@ def _observe_chunk(chunk):
 
 def observe_all(srcs, procs=16, chunk=20):
     chunks = [srcs[i:i + chunk] for i in range(0, len(srcs), chunk)]
-    ctx = multiprocessing.get_context("fork")
-    with ctx.Pool(min(procs, max(1, len(chunks))), maxtasksperchild=20) as p:
-        outs = p.map(_observe_chunk, chunks)
+    from . import replay as _rp
+    outs = _rp.pool_map(_observe_chunk, chunks, procs, maxtasks=20)
     return [r for o in outs for r in o]
 
 
